@@ -12,6 +12,7 @@
 #include <stdio.h>
 #include <string.h>
 #include <errno.h>
+#include <stdint.h>
 #include "dll.h"
 
 static nsync_mu mu;
@@ -198,6 +199,58 @@ static void nconsumer (void *a) {
 	vrt_releasing (&mu, 1); nsync_mu_unlock (&mu);
 }
 
+/* MODE 4: ONE waiter (timed and/or cancellable), one waker that signals or broadcasts INSIDE its critical section,
+   strictly before the waiter's deadline and before the note is notified, and then keeps the mutex while the clock
+   passes the deadline / the note gets notified.  The wake-up reached the waiter (it was the only one queued), so the
+   wait must report 0 -- never ETIMEDOUT or ECANCELED (C04: a consumed wake-up is reported as a wake-up). */
+#define M3_QUEUED 6
+#define M3_SIGNALLED_IN_TIME 7
+static int64_t m3_deadline_ns;
+static void m3_waiter (void *a) {
+	int kind = 1 + (int) vrt_rand (3);      /* 1 timed, 2 cancellable, 3 both */
+	int writer = (int) vrt_rand (2), r;
+	nsync_time dl = (kind & 1) ? vrt_abs (1500 + (int64_t) vrt_rand (3) * 500) : nsync_time_no_deadline;
+	m3_deadline_ns = (kind & 1) ? ts_ns (dl) : INT64_MAX;
+	if (writer) nsync_mu_lock (&mu); else nsync_mu_rlock (&mu);
+	vrt_acquired (&mu, writer);
+	vrt_sh_set (M3_QUEUED, 1);       /* still holding the mutex: the waker can see this only after we are on the cv queue */
+	vrt_releasing (&mu, writer);
+	r = nsync_cv_wait_with_deadline (&cv, &mu, dl, (kind & 2) ? cancel : NULL);
+	vrt_acquired (&mu, writer);
+	if (vrt_sh_get (M3_SIGNALLED_IN_TIME) && r != 0)
+		vrt_fail ("C04", "the only waiter was signalled before its deadline / cancellation, yet its wait returned %d instead of 0", r);
+	vrt_count (r == 0 ? "ret_woken" : "ret_other");
+	vrt_releasing (&mu, writer);
+	if (writer) nsync_mu_unlock (&mu); else nsync_mu_runlock (&mu);
+}
+static void m3_waker (void *a) {
+	for (;;) {
+		nsync_mu_lock (&mu); vrt_acquired (&mu, 1);
+		if (vrt_sh_get (M3_QUEUED)) break;
+		vrt_releasing (&mu, 1); nsync_mu_unlock (&mu);
+		vrt_yield ();
+	}
+	if (vrt_now_ns () < m3_deadline_ns && !nsync_note_is_notified (cancel)) {
+		if (vrt_rand (2)) nsync_cv_signal (&cv); else nsync_cv_broadcast (&cv);
+		/* the wake-up has been issued in time if the clock still is before the deadline now */
+		if (vrt_now_ns () < m3_deadline_ns && !nsync_note_is_notified (cancel)) vrt_sh_set (M3_SIGNALLED_IN_TIME, 1);
+	}
+	/* keep the mutex while the deadline passes (and the notifier may run): the waiter's timed sleep ends, it goes through
+	   its timeout / cancellation confirmation path and then has to wait for the mutex */
+	vrt_point ("holding-1");
+	if (vrt_rand (3) != 0 && m3_deadline_ns != INT64_MAX) vrt_clock_forward_to (m3_deadline_ns + (int64_t) vrt_rand (3));
+	{ int k, n = 3 + (int) vrt_rand (12); for (k = 0; k < n; k++) vrt_point ("holding"); }
+	vrt_releasing (&mu, 1); nsync_mu_unlock (&mu);
+	vrt_sh_set (8, 1);
+	nsync_cv_broadcast (&cv);
+}
+static void m3_notifier (void *a) {
+	/* cancel only after the wake-up has been issued (a cancellation before it is a legitimate ECANCELED) */
+	int k;
+	for (k = 0; k < 200 && !vrt_sh_get (M3_SIGNALLED_IN_TIME) && !vrt_sh_get (8); k++) vrt_yield ();
+	nsync_note_notify (cancel);
+}
+
 static void debugger (void *a) {
 	int k;
 	char buf[200];
@@ -212,7 +265,7 @@ static void debugger (void *a) {
 }
 
 int main (void) {
-	int mode = vrt_opt ("MODE", (int) vrt_rand (3));
+	int mode = vrt_opt ("MODE", (int) vrt_rand (5));
 	int i;
 	static char nm[12][8];
 	vrt_register (&mu, sizeof (mu), "mu0");
@@ -253,6 +306,11 @@ int main (void) {
 			if (n > 0) vrt_thread (nm[6 + i], producer, (void *) (long) n);
 		}
 		if (any_cancel && vrt_rand (2)) vrt_thread ("ntf", notifier, NULL);
+	} else if (mode == 4) {
+		cancel = nsync_note_new (NULL, nsync_time_no_deadline);
+		vrt_thread ("w", m3_waiter, NULL);
+		vrt_thread ("s", m3_waker, NULL);
+		vrt_thread ("n", m3_notifier, NULL);
 	} else if (mode == 2) {
 		vrt_thread ("w", m2_writer, NULL);
 		vrt_thread ("rs", m2_rsignaller, NULL);
